@@ -1,4 +1,5 @@
 HOOK_COMMITS = ["b0fe4bc"]
+RULE_LEVEL = ("Per-rule theorems over the Gallina model of the rule(s) (theories/Rules.v, run by the modelled visitor): for ALL schemas and documents (unbounded size, depth, wrappers), under the stated well-formedness side conditions, the rule reports at least one error IFF the specification predicate of spec/SpecRules.v (written from the GraphQL spec over the environment-passing annotation) holds; codes of the errors. The model is tied to the code on every run by validating generated documents with exactly these rules and diffing fires/does-not-fire per rule against the extracted model, and the implementation is compared with the extracted specification oracle on the same inputs.")
 NOTES = "Technique family: machine-checked proof in Coq 8.16.1. See DESIGN.md."
 NOTE_DEFAULT = ("Trusted: Coq kernel; the hand-written model is tied to the code by the differential correspondence run on every check "
                 "(generator quality bounds it); extraction (ExtrOcamlBasic/ExtrOcamlString only) + driver.ml; harness serialiser/renderers; "
@@ -7,6 +8,16 @@ LEVEL = {
     "C15": "Theorems over the Gallina model of operation_visitor.rs / schema_visitor.rs for ALL documents and schemas (no size bound): the callback sequence equals the structural pre/post-order linearisation of the document (hence every node once, nested, in list order, independent of the schema). The model is tied to the code by running the real visitor with a recording OperationVisitor/SchemaVisitor on generated documents and diffing every callback against the extracted model.",
     "C16": "Theorems over the same model: all six context stacks are restored by the walk for every visitor and start state, and the context answers at every callback equal an environment-passing specification (annot) written from the GraphQL spec. Correspondence: the six answers at every callback and the stack depths after the walk (hook) are diffed against the extracted model.",
 }
+LEVEL.update({
+    "C04": RULE_LEVEL + " Rules: FieldsOnCorrectType, LeafFieldSelections.",
+    "C06": RULE_LEVEL + " Rules: UniqueFragmentNames, KnownFragmentNames, KnownTypeNames, FragmentsOnCompositeTypes, PossibleFragmentSpreads, NoUnusedFragments (reachability work-list: fuel sufficiency + least fixed point), NoFragmentsCycle (DFS: totality, soundness, completeness).",
+    "C07": RULE_LEVEL + " Rules: UniqueVariableNames, VariablesAreInputTypes, NoUndefinedVariables, NoUnusedVariables (DFS over spreads: tables, totality, reachability), plus the decision core of VariablesInAllowedPosition for all types (effective-type subtyping = IsVariableUsageAllowed).",
+    "C08": RULE_LEVEL + " Rule: ValuesOfCorrectType, with the core theorem for every (expected type, literal) pair: walking the literal yields no error iff coercibleb.",
+    "C09": RULE_LEVEL + " Rules: KnownArgumentNames (slot invariant; the error names the owner the argument is attached to), UniqueArgumentNames, ProvidedRequiredArguments.",
+    "C10": RULE_LEVEL + " Rules: KnownDirectives (location slot invariant), UniqueDirectivesPerLocation.",
+    "C11": RULE_LEVEL + " Rules: UniqueOperationNames, LoneAnonymousOperation, SingleFieldSubscriptions (through collect_fields = the specification's CollectFields).",
+    "C13": "Theorems over the model of validate.rs/defaults.rs for ALL plans (any length, order, repetitions), schemas and documents: validate = in-order concatenation of the rules run alone (complete case analysis incl. the panic and fuel outcomes), every rule restores the shared context, the default plan holds each of the 24 rules exactly once. Correspondence on random plans x documents: full error lists (code, locations) as multisets per run of one code vs the extracted model; on the implementation additionally plan-result = concatenation of single-rule runs, codes, non-empty messages, locations are node positions, JSON shape, default plan order.",
+})
 NOTE = {}
 TECH = {}
 NOT_CLAIMED = {}
